@@ -439,11 +439,11 @@ struct TierCfg {
 fn tier_cfg(prop: &str, tier: &str) -> TierCfg {
     let thorough = tier == "thorough";
     let (runs, store) = match prop {
-        "C13" => (if thorough { 120_000 } else { 6_000 }, if thorough { 400_000 } else { 20_000 }),
-        "C14" => (if thorough { 160_000 } else { 8_000 }, 0),
-        "C15" => (if thorough { 120_000 } else { 6_000 }, 0),
-        "C16" => (if thorough { 100_000 } else { 5_000 }, 0),
-        _ => (if thorough { 100_000 } else { 5_000 }, if thorough { 2_000_000 } else { 100_000 }),
+        "C13" => (if thorough { 900_000 } else { 24_000 }, if thorough { 3_000_000 } else { 80_000 }),
+        "C14" => (if thorough { 450_000 } else { 20_000 }, 0),
+        "C15" => (if thorough { 140_000 } else { 7_000 }, 0),
+        "C16" => (if thorough { 400_000 } else { 14_000 }, 0),
+        _ => (if thorough { 150_000 } else { 7_000 }, if thorough { 4_000_000 } else { 200_000 }),
     };
     TierCfg { runs, store_runs: store }
 }
@@ -749,10 +749,10 @@ fn replay(path: &str, quiet: bool, trace: bool) -> i32 {
     }
 }
 
-fn determinism(prop: &str, runs: u64, verif_seed: u64) {
+fn determinism(prop: &str, first: u64, runs: u64, verif_seed: u64) {
     // print one digest line per run: the full event log (every scheduling decision, every
     // datagram's bytes, every observation) hashed
-    for i in 0..runs {
+    for i in first..first + runs {
         let seed = run_seed(verif_seed, prop, i);
         let sc = generate(seed, prop, profile_for(prop, i));
         let out = runner::run(&sc);
@@ -804,8 +804,9 @@ fn main() {
         }
         "determinism" => {
             let runs: u64 = args[3].parse().unwrap();
+            let first: u64 = args.get(4).and_then(|s| s.parse().ok()).unwrap_or(0);
             let vs: u64 = std::env::var("VERIF_SEED").ok().and_then(|s| s.parse().ok()).unwrap_or(1);
-            determinism(&args[2], runs, vs);
+            determinism(&args[2], first, runs, vs);
         }
         "check" => {
             let prop = args[2].clone();
